@@ -85,6 +85,48 @@ fn decode_pieces_inner(whole: &[u8], cuts: &[usize]) -> Result<(), String> {
     Ok(())
 }
 
+/// The session's own frame reader: a server `Session` is fed `whole` cut at `cuts` (one transport read per piece: the
+/// paused clock only advances when every task is idle) and must answer every HeartRequest in it, in order.
+fn session_reader(rt: &tokio::runtime::Runtime, whole: &[u8], cuts: &[usize], expect: &[u32]) -> Result<(), String> {
+    use tokio::io::{AsyncReadExt, AsyncWriteExt};
+    let whole = whole.to_vec();
+    let cuts = cuts.to_vec();
+    let got: Result<Vec<u32>, String> = rt.block_on(async move {
+        let (mut peer, server_io) = tokio::io::duplex(1 << 16);
+        let (sr, sw) = tokio::io::split(server_io);
+        let padding = std::sync::Arc::new(anytls_rs::padding::PaddingFactory::new(anytls_rs::padding::DEFAULT_PADDING_SCHEME.as_bytes()).map_err(|e| e.to_string())?);
+        let server = std::sync::Arc::new(anytls_rs::session::Session::new_server(sr, sw, padding));
+        let s2 = server.clone();
+        let h = tokio::spawn(async move {
+            let _ = s2.recv_loop().await;
+        });
+        let mut bounds = cuts.clone();
+        bounds.push(whole.len());
+        let mut at = 0usize;
+        for b in bounds {
+            peer.write_all(&whole[at..b]).await.map_err(|e| e.to_string())?;
+            at = b;
+            tokio::time::sleep(std::time::Duration::from_millis(5)).await;
+        }
+        let mut buf = Vec::new();
+        let mut tmp = [0u8; 256];
+        while let Ok(Ok(n)) = tokio::time::timeout(std::time::Duration::from_millis(50), peer.read(&mut tmp)).await {
+            if n == 0 {
+                break;
+            }
+            buf.extend_from_slice(&tmp[..n]);
+        }
+        h.abort();
+        let (frames, _rest) = parse_all(&buf);
+        Ok(frames.iter().filter(|f| f.cmd == Command::HeartResponse as u8).map(|f| f.id).collect())
+    });
+    let got = got?;
+    if got != expect {
+        return Err(format!("the session answered heartbeats {got:?}, fed whole it answers {expect:?}"));
+    }
+    Ok(())
+}
+
 pub fn run(tier: Tier) -> i32 {
     let mut rep = Report::new("C03", tier, "exploration");
     let thorough = tier.is_thorough();
@@ -376,6 +418,61 @@ pub fn run(tier: Tier) -> i32 {
             }
         }
     }
-    rep.sections.insert("parts".into(), json!({"length_sweep": 65536, "cmd_x_id_x_boundary_len": 256 * ids.len() * lens.len(), "chunking_streams": streams.len(), "chunking_cases": chunk_cases, "arbitrary_header_bytes": arb, "length_fields": 65536}));
-    rep.finish("IX against an independent reference codec: all 65536 payload lengths; all 256 command bytes x 39 ids x 8 boundary lengths; over-long payloads (also appended to a kept buffer between accepted frames); every sequence of <=3 frames over a 9-frame alphabet (+ every proper prefix for <=2 frames) under every cut pattern (<=16/20 bytes) or every <=2/3-cut pattern, and byte-at-a-time; every value of each header byte in 4 contexts; all 65536 length fields against a short buffer; non-trivial = distinct (length | cmd,id,len | stream) case")
+
+    // ---- 5. the same question at the session's own reader (Session::recv_loop owns the buffer between transport reads):
+    // short frame sequences fed to a real server session under every pattern of <= 3 (4) cuts; the answers to the
+    // HeartRequests in them are the observable frame sequence
+    let hr = Command::HeartRequest as u8;
+    let sstreams: Vec<(Vec<u8>, Vec<u32>)> = vec![
+        ([enc(hr, 1, b""), enc(hr, 2, b""), enc(hr, 3, b"")].concat(), vec![1, 2, 3]),
+        ([enc(0, 0, &[0; 5]), enc(hr, 1, b""), enc(hr, 2, b"")].concat(), vec![1, 2]),
+        ([enc(hr, 1, b""), enc(0, 0, &[0; 9]), enc(hr, 2, b"")].concat(), vec![1, 2]),
+        ([enc(0, 0, &[0; 1]), enc(hr, 1, b""), enc(0, 0, &[0; 3]), enc(hr, 2, b"")].concat(), vec![1, 2]),
+    ];
+    let max_scuts = if thorough { 4 } else { 3 };
+    let nstreams = sstreams.len();
+    let sres: Vec<(u64, Vec<V>)> = par_map(nstreams * 31, 16, move |job| {
+        let (bytes, expect) = &sstreams[job % nstreams];
+        let first = job / nstreams + 1; // first cut position (0 cuts handled with first == 1)
+        let rt = tokio::runtime::Builder::new_current_thread().enable_time().start_paused(true).build().unwrap();
+        let mut viols: Vec<V> = vec![];
+        let mut n = 0u64;
+        let l = bytes.len();
+        if first >= l {
+            return (0, viols);
+        }
+        let mut stack: Vec<Vec<usize>> = vec![vec![first]];
+        if first == 1 {
+            stack.push(vec![]);
+        }
+        while let Some(cuts) = stack.pop() {
+            n += 1;
+            if let Err(e) = session_reader(&rt, bytes, &cuts, expect) {
+                if viols.len() < 3 {
+                    viols.push(("C03:session-reader-chunking-dependent".to_string(), format!("stream {:02x?} delivered to a server session cut at {:?}: {e}", bytes, cuts), json!({"engine": "IX", "part": "session-reader", "bytes": bytes, "cuts": cuts})));
+                }
+            }
+            if !cuts.is_empty() && cuts.len() < max_scuts {
+                for c in cuts[cuts.len() - 1] + 1..l {
+                    let mut k = cuts.clone();
+                    k.push(c);
+                    stack.push(k);
+                }
+            }
+        }
+        (n, viols)
+    });
+    let mut session_cases = 0u64;
+    for (n, viols) in sres {
+        session_cases += n;
+        for _ in 0..n {
+            rep.case(None);
+        }
+        for (k, d, r) in viols {
+            rep.violation(&k, &d, r);
+        }
+    }
+    rep.sample(json!({"part": "session-reader", "streams": nstreams, "max_cuts": max_scuts, "cases": session_cases}));
+    rep.sections.insert("parts".into(), json!({"length_sweep": 65536, "cmd_x_id_x_boundary_len": 256 * ids.len() * lens.len(), "chunking_streams": streams.len(), "chunking_cases": chunk_cases, "arbitrary_header_bytes": arb, "length_fields": 65536, "session_reader_cases": session_cases}));
+    rep.finish("IX against an independent reference codec: all 65536 payload lengths; all 256 command bytes x 39 ids x 8 boundary lengths; over-long payloads (also appended to a kept buffer between accepted frames); every sequence of <=3 frames over a 9-frame alphabet (+ every proper prefix for <=2 frames) under every cut pattern (<=16/20 bytes) or every <=2/3-cut pattern, and byte-at-a-time; every value of each header byte in 4 contexts; all 65536 length fields against a short buffer; 4 frame sequences fed to a real server Session (recv_loop) under every pattern of <=3/4 cuts, answers to the heartbeats compared with whole delivery; non-trivial = distinct (length | cmd,id,len | stream) case")
 }
